@@ -133,6 +133,22 @@ func checkCase(ctx *xplor.Ctx, p *lx.Prepared, net nk.Net, word []int, alpha []l
 			return desc, "", m
 		}
 	}
+	// a block with a foreign-signed tx delivered right after a block that failed during
+	// execution (its signature-verification result was never awaited): must still be refused
+	if !forged && len(x.Included) > 0 {
+		cid := p.Node.ChainIDHashFor(p.Parent.BlockNo() + 1)
+		ftx := nk.MakeTx(nk.TxSpec{From: 2, Nonce: x.Dump.NonceOf(nk.UserAddrs[2]) + 1, To: nk.UserAddrs[3], Type: types.TxType_TRANSFER, SignWith: 3}, cid)
+		fb, err := p.Node.Produce(p.Parent, append(append([]*types.Tx{}, x.Included...), ftx), 1, 3, 1)
+		p.Node.ResetGlobals()
+		if err == nil && len(fb.Block.GetBody().GetTxs()) == len(x.Included)+1 {
+			before = p.Node.StoreDigest()
+			dup := lx.Forge(x.Built.Block, append(append([]*types.Tx{}, x.Included...), x.Included[0]), 1)
+			_ = p.Node.Deliver(dup) // fails in executeTx (nonce too low) after ValidateBody started the verification
+			if m := refuse("a tx signed with a foreign key (delivered after a block that failed during execution)", fb.Block); m != "" {
+				return desc, "F18", m
+			}
+		}
+	}
 	// completeness: the honest block is accepted
 	if !forged {
 		if err := p.Node.Deliver(x.Built.Block); err != nil {
